@@ -7,6 +7,7 @@ import (
 var (
 	ErrInvalidAction = errors.New("player: invalid action")
 	ErrIllegalRaise  = errors.New("player: illegal raise")
+	ErrIllegalBet    = errors.New("player: illegal bet")
 )
 
 type Player interface {
@@ -331,6 +332,10 @@ func (p *player) Bet(chips int64) error {
 
 	if !p.CheckAction("bet") {
 		return ErrInvalidAction
+	}
+
+	if chips <= 0 {
+		return ErrIllegalBet
 	}
 
 	//fmt.Printf("[Player %d] bet %d\n", p.idx, chips)
